@@ -11,6 +11,35 @@ from dateutil.rrule import rrule
 
 
 
+def _create_custom_timezone(name, transition_times, transition_info):
+    """Create a pytz timezone that is defined by a VTIMEZONE component."""
+    cls = type(name, (DstTzInfo,), {
+        'zone': name,
+        '_utc_transition_times': transition_times,
+        '_transition_info': transition_info,
+        '__reduce__': _reduce_custom_timezone,
+    })
+    return cls()
+
+
+def _reduce_custom_timezone(self):
+    """pytz restores a timezone by its name from its database.
+
+    Timezones that come from a VTIMEZONE are not in there,
+    so we copy and pickle them with their transitions.
+    """
+    return _restore_custom_timezone, (
+        self.zone, self._utc_transition_times, self._transition_info,
+        (self._utcoffset, self._dst, self._tzname)
+    )
+
+
+def _restore_custom_timezone(name, transition_times, transition_info, current):
+    """Create the timezone again and choose the same offset."""
+    tz = _create_custom_timezone(name, transition_times, transition_info)
+    return tz._tzinfos.get(current, tz)
+
+
 class PYTZ(TZProvider):
     """Provide icalendar with timezones from pytz."""
 
@@ -41,13 +70,7 @@ class PYTZ(TZProvider):
     def create_timezone(self, tz: cal.Timezone) -> tzinfo:
         """Create a pytz timezone from the given information."""
         transition_times, transition_info = tz.get_transitions()
-        name = tz.tz_name
-        cls = type(name, (DstTzInfo,), {
-            'zone': name,
-            '_utc_transition_times': transition_times,
-            '_transition_info': transition_info
-        })
-        return cls()
+        return _create_custom_timezone(tz.tz_name, transition_times, transition_info)
 
     def timezone(self, name: str) -> Optional[tzinfo]:
         """Return a timezone with a name or None if we cannot find it."""
